@@ -13,10 +13,10 @@ FORMULA_ROWS = {
     "push": ["C01", "C11"], "insert": ["C01", "C11"], "clear": ["C01", "C03"], "ctor-fields:Pop": ["C01", "C07"], "ctor-fields:Remove": ["C01", "C07"],
     "ctor-fields:SwapRemove": ["C01", "C07"], "ctor-fields:Drain": ["C02", "C07"], "ctor-fields:Splice": ["C02", "C07"],
     "Pop::": ["C01", "C13", "C05"], "Remove::": ["C01", "C13", "C05"], "SwapRemove::": ["C01", "C13", "C05"],
-    "Drain::drop": ["C02", "C03"], "Splice::drop": ["C02", "C03", "C11", "C05"],
+    "Drain::drop": ["C02", "C03", "C06"], "Splice::drop": ["C02", "C03", "C11", "C05", "C06"], "range-entry": ["C02", "C11", "C19"],
     "slot-pointer": ["C01", "C13", "C05"], "view:": ["C12", "C05"], "set_len": ["C12"], "iter-range": ["C01", "C14"],
     "reserve": ["C10"], "reserve_exact": ["C10"], "shrink_to_fit": ["C10", "C05"], "shrink_to": ["C10", "C05"],
-    "clone": ["C08", "C05"], "TempValue::": ["C01", "C03", "C06"], "swap_unchecked": ["C13"], "vec-drop": ["C03", "C05"], "element-handle": ["C13", "C01"], "clone_into": ["C09", "C08", "C01"], "lazy-noop": ["C09"], "bytes-ptr-agree": ["C13"], "into_range": ["C02", "C14"], "heap-expand": ["C10", "C05"], "expand_exact": ["C10"], "build_with_size": ["C10"],
+    "clone": ["C08", "C05"], "TempValue::": ["C01", "C03", "C06"], "swap_unchecked": ["C13"], "vec-drop": ["C03", "C05"], "element-handle": ["C13", "C01"], "element-drop": ["C03", "C02"], "clone_into": ["C09", "C08", "C01"], "lazy-noop": ["C09"], "bytes-ptr-agree": ["C13"], "into_range": ["C02", "C14"], "heap-expand": ["C10", "C05"], "expand_exact": ["C10"], "build_with_size": ["C10"],
 }
 
 
@@ -121,21 +121,25 @@ RULES["R-EXPANDGUARD"]["props_filter"] = _fn_filter([("clone", ["C08", "C11", "C
 RULES["R-TYPEGUARD"]["props_filter"] = _fn_filter([("swap", ["C04", "C13"])], default=["C04"])
 RULES["R-LENLOWER"]["props_filter"] = _fn_filter([("extra-effect", ["C02", "C07", "C06", "C11", "C19"]), ("drain", ["C02", "C07", "C06"]), ("splice", ["C02", "C07", "C06"])], default=["C07", "C06", "C01", "C03"])
 RULES["R-HEAP"]["props_filter"] = _fn_filter([("size-update", ["C18", "C10"]), ("layout", ["C18", "C12"]), ("build-allocates", ["C18", "C10"])], default=["C18"])
-RULES["R-FORGET"]["props_filter"] = _fn_filter([("LazyClone", ["C09", "C03"]), ("lazy", ["C09", "C03"])], default=["C03", "C09"])
+RULES["R-FORGET"]["props_filter"] = _fn_filter([("owned-value-no-drop", ["C03", "C04"]), ("bypasses-move_into", ["C01", "C03", "C09"]), ("LazyClone", ["C09", "C03"]), ("lazy", ["C09", "C03"])], default=["C03", "C09"])
+# copies inside one storage: the drain/splice tail moves (move_elements_at, Drain/Splice drop) belong to C02 as well, everything to C01 and C05
+RULES["R-OVERLAP"]["props_filter"] = _fn_filter([("move_elements_at", ["C01", "C02", "C05"]), ("drain", ["C01", "C02", "C05"]), ("splice", ["C01", "C02", "C05"])], default=["C01", "C05"])
+# a cursor method outside the judged next/next_back/size_hint/len set can skip owning items (drained elements are then never destroyed): also C03
+RULES["R-ITER"]["props_filter"] = _fn_filter([("unclassified-cursor-method", ["C02", "C13", "C14", "C03"])], default=["C02", "C13", "C14"])
 RULES["R-STACKCAP"]["props_filter"] = _fn_filter([("zero-size-capacity", ["C11"])], default=["C11", "C05"])
-RULES["R-PROVENANCE"]["props_filter"] = _fn_filter([("reporter", ["C04", "C13"]), ("clone_type::clone_fn", ["C08", "C03", "C09", "C01"]), ("clone", ["C08", "C03"]), ("CLONE_FN", ["C08"]), ("destr", ["C03"])], default=["C04", "C08", "C03"])
+RULES["R-PROVENANCE"]["props_filter"] = _fn_filter([("reporter", ["C04", "C13"]), ("clone_type::clone_fn:destroys-on-unwind", ["C06", "C03", "C08"]), ("clone_type::clone_fn", ["C08", "C03", "C09", "C01"]), ("clone", ["C08", "C03"]), ("CLONE_FN", ["C08"]), ("destr", ["C03"])], default=["C04", "C08", "C03"])
 
 PROPERTIES = {
-    "C01": {"rules": ["R-BOUNDS", "R-FORMULA", "R-UNITS", "R-OVERLAP", "R-PROVENANCE"],
+    "C01": {"rules": ["R-BOUNDS", "R-FORMULA", "R-UNITS", "R-OVERLAP", "R-PROVENANCE", "R-FORGET"],
             "not_decided": "value-level equality of elements (the analysis tracks slots and byte ranges, not contents); user backends violating the Mem contract"},
-    "C02": {"rules": ["R-BOUNDS", "R-LENLOWER", "R-ITER", "R-FORMULA", "R-NONINTERFERENCE", "R-UNITS", "R-ARITH", "R-BOUNDLOOP"],
+    "C02": {"rules": ["R-BOUNDS", "R-LENLOWER", "R-ITER", "R-FORMULA", "R-NONINTERFERENCE", "R-UNITS", "R-ARITH", "R-BOUNDLOOP", "R-OVERLAP"],
             "not_decided": "equality of yielded values"},
-    "C03": {"rules": ["R-FORGET", "R-PROVENANCE", "R-ORDER", "R-NONINTERFERENCE", "R-FORMULA", "R-LENLOWER", "R-NOLEAK"],
+    "C03": {"rules": ["R-FORGET", "R-PROVENANCE", "R-ORDER", "R-NONINTERFERENCE", "R-FORMULA", "R-LENLOWER", "R-NOLEAK", "R-ITER"],
             "not_decided": "a global count of live values over histories (ownership discipline is decided, not identity accounting)"},
-    "C04": {"rules": ["R-TYPEGUARD", "R-PROVENANCE", "R-ORDER"], "not_decided": "which downcast succeeds at run time; decided: every unchecked reinterpretation sits behind the right equality test"},
-    "C05": {"rules": ["R-ORDER", "R-BOUNDS", "R-UNITS", "R-FORMULA", "R-BOUNDLOOP", "R-NONINTERFERENCE", "R-STACKCAP"],
+    "C04": {"rules": ["R-TYPEGUARD", "R-PROVENANCE", "R-ORDER", "R-FORGET"], "not_decided": "which downcast succeeds at run time; decided: every unchecked reinterpretation sits behind the right equality test"},
+    "C05": {"rules": ["R-ORDER", "R-BOUNDS", "R-UNITS", "R-FORMULA", "R-BOUNDLOOP", "R-NONINTERFERENCE", "R-STACKCAP", "R-OVERLAP"],
             "not_decided": "'no byte is read before it was written' in general, guard zones / poison (run-time notions)"},
-    "C06": {"rules": ["R-ORDER", "R-BOUNDLOOP", "R-LENLOWER"], "not_decided": "that later operations stay fully usable beyond LEN<=CAP and visible-range integrity"},
+    "C06": {"rules": ["R-ORDER", "R-BOUNDLOOP", "R-LENLOWER", "R-PROVENANCE", "R-FORMULA"], "not_decided": "that later operations stay fully usable beyond LEN<=CAP and visible-range integrity"},
     "C07": {"rules": ["R-LENLOWER", "R-FORMULA"], "not_decided": ""},
     "C08": {"rules": ["R-FORMULA", "R-ORDER", "R-EXPANDGUARD", "R-PROVENANCE"],
             "not_decided": "each source element cloned exactly once beyond the clone function's loop shape; independence beyond separate storage"},
@@ -150,7 +154,7 @@ PROPERTIES = {
     "C16": {"rules": ["R-SIG"], "probes": ["P16"], "exhaustive": True, "not_decided": ""},
     "C17": {"rules": ["R-FIELDMAP"], "not_decided": "'indistinguishable under all further operations' follows only as 'every field is restored'"},
     "C18": {"rules": ["R-HEAP", "R-ARITH", "R-ALLOCCONFINED", "R-UNITS", "R-NOLEAK"], "not_decided": "the allocator's own behaviour"},
-    "C19": {"rules": ["R-CONFIG", "R-ALLOCCONFINED", "R-EXPANDGUARD", "R-LENLOWER"], "probes": ["P19"], "configs_quick": ["default", "no-alloc"], "not_decided": ""},
+    "C19": {"rules": ["R-CONFIG", "R-ALLOCCONFINED", "R-EXPANDGUARD", "R-LENLOWER", "R-FORMULA"], "probes": ["P19"], "configs_quick": ["default", "no-alloc"], "not_decided": ""},
 }
 for _p in PROPERTIES.values():
     _p.setdefault("explanation", _EXPL)
